@@ -560,9 +560,21 @@ func (w *World) hookAccess(fs *storage.VerifStore, kind int, off uint64) {
 			map[string]string{"stmt": w.stmtKind, "access": accName(kind)})
 	}
 	if change && w.cur == nil && w.inStmt {
+		w.changeAfterSuspect()
 		w.stmtChanged = true
 	}
 	w.yieldPoint()
+}
+
+// changeAfterSuspect: the statement changes pages again after a flusher wrote
+// to the data file in the middle of it (the statement had let go of the lock
+// for a moment): the flush saw a half-made statement.
+func (w *World) changeAfterSuspect() {
+	if w.mon.Quiet && w.quietSuspect != "" && !w.inRecovery {
+		w.raise("C13", "O-quiet", fmt.Sprintf("%s write to the data file by the flusher between two page changes of one %s statement", w.quietSuspect, w.stmtKind),
+			map[string]string{"stmt": w.stmtKind, "what": w.quietSuspect, "when": "between-changes"})
+		w.quietSuspect = ""
+	}
 }
 
 func accName(k int) string {
@@ -590,6 +602,7 @@ func (w *World) hookNodeMark(n *storage.VerifNode, dirty bool) {
 	w.h(7, n.VerifOffset(), b2u(dirty))
 	if dirty {
 		if w.cur == nil && w.inStmt {
+			w.changeAfterSuspect()
 			w.stmtChanged = true
 		}
 		if w.mon.Lock && !w.inRecovery && w.cur == nil && w.inStmt && w.sessLocks == 0 && w.anyAuto() {
